@@ -55,6 +55,7 @@ func parseHeaders(decodeFn qpack.DecodeFunc, isRequest bool, sizeLimit int, head
 	hdr := header{Headers: make(http.Header)}
 	var readFirstRegularHeader, readContentLength bool
 	var contentLengthStr string
+	seenPseudoHeaders := make(map[string]struct{}, 4)
 	for {
 		h, err := decodeFn()
 		if err != nil {
@@ -106,6 +107,11 @@ func parseHeaders(decodeFn qpack.DecodeFunc, isRequest bool, sizeLimit int, head
 			default:
 				return header{}, fmt.Errorf("unknown pseudo header: %s", h.Name)
 			}
+			// An occurrence with an empty value is an occurrence, too.
+			if _, ok := seenPseudoHeaders[h.Name]; ok {
+				isDuplicatePseudoHeader = true
+			}
+			seenPseudoHeaders[h.Name] = struct{}{}
 			if isDuplicatePseudoHeader {
 				return header{}, fmt.Errorf("duplicate pseudo header: %s", h.Name)
 			}
